@@ -767,13 +767,26 @@ class TemplateModel(object):
         out = np.dot(x, mat) * getattr(self, 'template_scaling', 1.0)
         return np.ascontiguousarray(out)
 
+    def _load_store_rows(self, name):
+        """Load the optional table of the spike ids a feature store holds (None: all spikes)."""
+        try:
+            # NOTE: at least 1D, the store may list a single spike.
+            return np.atleast_1d(self._read_array(self._find_path(name)))
+        except IOError:
+            return None
+
     def _load_features(self):
+
+        rows = self._load_store_rows('pc_feature_spike_ids.npy')
 
         # Sparse structure: regular array with row and col indices.
         try:
             logger.debug("Loading features.")
             data = self._read_array(
                 self._find_path('pc_features.npy'), mmap_mode='r')
+            if rows is not None and len(rows) == 1:
+                # Restore the spike axis of a store that holds a single spike (squeezed away).
+                data = data[np.newaxis, ...]
             if data.ndim == 2:  # pragma: no cover
                 # Deal with npcs = 1.
                 data = data.reshape(data.shape + (1,))
@@ -796,20 +809,22 @@ class TemplateModel(object):
             logger.debug("Features are dense.")
             cols = None
 
-        try:
-            rows = self._read_array(self._find_path('pc_feature_spike_ids.npy'))
+        if rows is not None:
             assert rows.shape == (n_spikes,)
-        except IOError:
-            rows = None
 
         return Bunch(data=data, cols=cols, rows=rows)
 
     def _load_template_features(self):
 
+        rows = self._load_store_rows('template_feature_spike_ids.npy')
+
         # Sparse structure: regular array with row and col indices.
         try:
             logger.debug("Loading template features.")
             data = self._read_array(self._find_path('template_features.npy'), mmap_mode='r')
+            if rows is not None and len(rows) == 1:
+                # Restore the spike axis of a store that holds a single spike (squeezed away).
+                data = data[np.newaxis, ...]
             assert data.dtype in (np.float32, np.float64)
             assert data.ndim == 2
             n_spikes, n_channels_loc = data.shape
@@ -824,11 +839,8 @@ class TemplateModel(object):
             cols = None
             logger.debug("Template features are dense.")
 
-        try:
-            rows = self._read_array(self._find_path('template_feature_spike_ids.npy'))
+        if rows is not None:
             assert rows.shape == (n_spikes,)
-        except IOError:
-            rows = None
 
         return Bunch(data=data, cols=cols, rows=rows)
 
